@@ -530,7 +530,8 @@ def split_params(toks):
     return res
 
 TYMAP = [
-    (r"^Result < \( \) , ReserveError >$", "Rs Unit"),
+    (r"^Result < \( \) , ReserveError >$", "Rs Unit"), (r"^fmt :: Result$", "Rs Unit"), (r"^Self :: Output$", "Handle"),
+    (r"^Option < char >$", "Option Chr"),
     (r"^Result < Self , ReserveError >$", "Rs Handle"),
     (r"^Result < Option < char > , ReserveError >$", "Rs (Option Chr)"),
     (r"^Result < char , ReserveError >$", "Rs Chr"),
@@ -646,19 +647,24 @@ class Lower:
                 raise Bad("explicit drop")
             name = {"Ok": "rs_Ok", "Err": "rs_Err", "Some": "rs_Some"}.get(p[0], None) if len(p) == 1 else None
             head = name or ".".join(p)
-            wrap = len(p) == 2 and p[0] == "Repr" and p[1] in self.generated
+            wrap = head in self.generated
             return self.args(e[2], lambda as_: self.bindc(self.app(head, as_, wrap), k, ind), ind)
         if t == "mcall":
             recv, name, args = e[1], e[2], e[3]
             if self.is_self(recv):
                 head = f"Repr.{name}"
-                wrap = name in self.generated
+                wrap = head in self.generated
+                return self.args(args, lambda as_: self.bindc(self.app(head, as_, wrap), k, ind), ind)
+            if self.self_field and recv == ("path", ["self"]):
+                # a method of `LeanString` itself (`self.try_push(ch)`)
+                head = f"LeanString.{name}"
+                wrap = head in self.generated
                 return self.args(args, lambda as_: self.bindc(self.app(head, as_, wrap), k, ind), ind)
             if self.self_field and recv[0] == "field" and recv[2] == "0" and recv[1][0] == "path" and len(recv[1][1]) == 1:
                 # `other.0.method(args)` on another LeanString (a `&Self` parameter)
                 other = ident(recv[1][1][0])
                 head = f"Repr.{name}"
-                wrap = name in self.generated
+                wrap = head in self.generated
                 return self.args(args, lambda as_: self.bindc(f"onRepr {other} ({self.app(head, as_, wrap)})", k, ind), ind)
             return self.ex(recv, lambda r: self.args(args, lambda as_: self.bindc(self.app(f"{r}.rs_{name}", as_, False), k, ind), ind), ind)
         if t == "index":
@@ -820,6 +826,22 @@ TARGETS = [
     ("lib.rs", "impl LeanString", "capacity", "LeanString.capacity", True),
     ("lib.rs", "impl LeanString", "len", "LeanString.len", True),
     ("lib.rs", "impl LeanString", "is_heap_allocated", "LeanString.is_heap_allocated", True),
+    ("lib.rs", "impl LeanString", "try_with_capacity", "LeanString.try_with_capacity", True),
+    ("lib.rs", "impl LeanString", "with_capacity", "LeanString.with_capacity", True),
+    ("lib.rs", "impl LeanString", "reserve", "LeanString.reserve", True),
+    ("lib.rs", "impl LeanString", "shrink_to_fit", "LeanString.shrink_to_fit", True),
+    ("lib.rs", "impl LeanString", "shrink_to", "LeanString.shrink_to", True),
+    ("lib.rs", "impl LeanString", "push", "LeanString.push", True),
+    ("lib.rs", "impl LeanString", "pop", "LeanString.pop", True),
+    ("lib.rs", "impl LeanString", "push_str", "LeanString.push_str", True),
+    ("lib.rs", "impl LeanString", "remove", "LeanString.remove", True),
+    ("lib.rs", "impl LeanString", "insert", "LeanString.insert", True),
+    ("lib.rs", "impl LeanString", "insert_str", "LeanString.insert_str", True),
+    ("lib.rs", "impl LeanString", "truncate", "LeanString.truncate", True),
+    ("lib.rs", "impl AddAssign<&str> for LeanString", "add_assign", "LeanString.add_assign", True),
+    ("lib.rs", "impl fmt::Write for LeanString", "write_str", "LeanString.write_str", True),
+    ("lib.rs", "impl Add<&str> for LeanString", "add", "LeanString.add", True),
+    ("lib.rs", "impl From<&str> for LeanString", "from", "LeanString.from_str_ref", True),
 ]
 # expected Lean signatures (used for the stub of a poisoned function, and checked against the source)
 SIGS = {
@@ -841,6 +863,14 @@ SIGS = {
     "LeanString.try_insert_str": ([("idx", "Nat"), ("string", "Str")], "Rs Unit"),
     "LeanString.try_truncate": ([("new_len", "Nat")], "Rs Unit"), "LeanString.capacity": ([], "Nat"), "LeanString.len": ([], "Nat"),
     "LeanString.is_heap_allocated": ([], "Bool"),
+    "LeanString.try_with_capacity": ([("capacity", "Nat")], "Rs Handle"), "LeanString.with_capacity": ([("capacity", "Nat")], "Handle"),
+    "LeanString.reserve": ([("additional", "Nat")], "Unit"), "LeanString.shrink_to_fit": ([], "Unit"),
+    "LeanString.shrink_to": ([("min_capacity", "Nat")], "Unit"), "LeanString.push": ([("ch", "Chr")], "Unit"),
+    "LeanString.pop": ([], "Option Chr"), "LeanString.push_str": ([("string", "Str")], "Unit"),
+    "LeanString.remove": ([("idx", "Nat")], "Chr"), "LeanString.insert": ([("idx", "Nat"), ("ch", "Chr")], "Unit"),
+    "LeanString.insert_str": ([("idx", "Nat"), ("string", "Str")], "Unit"), "LeanString.truncate": ([("new_len", "Nat")], "Unit"),
+    "LeanString.add_assign": ([("rhs", "Str")], "Unit"), "LeanString.write_str": ([("s", "Str")], "Rs Unit"),
+    "LeanString.add": ([("rhs", "Str")], "Handle"), "LeanString.from_str_ref": ([("value", "Str")], "Handle"),
 }
 
 def pick64(variants):
@@ -891,7 +921,7 @@ def emit(defs):
 
 def main():
     srcs = {f: open(os.path.join(REPO, f)).read() for f in ("repr.rs", "lib.rs")}
-    generated = {fn for (_, h, fn, ln, _) in TARGETS if h == "impl Repr" and ln == f"Repr.{fn}"}
+    generated = {ln for (_, h, fn, ln, _) in TARGETS if not ln.endswith("_body")}
     cache, defs, status = {}, {}, {}
     for file, header, fn, lname, sf in TARGETS:
         try:
